@@ -356,6 +356,13 @@ def _scenarios(repo):
         t.link(t.output(x, pull=True), [], a)
         return a
 
+    def cycle_pull_only(t):
+        a, x, y = t.comp("A"), t.comp("X", timed=False), t.comp("Y", timed=False)
+        t.link(t.output(x, pull=True), [], a)
+        t.link(t.output(y, pull=True), [], x)
+        t.link(t.output(x, "o2", pull=True), [], y)
+        return a
+
     def cycle3(t):
         a, b, c = t.comp("A"), t.comp("B"), t.comp("C")
         t.link(t.output(a), [], b)
@@ -399,6 +406,7 @@ def _scenarios(repo):
     mk("cycle2", cycle2, "R09")
     mk("cycle3", cycle3, "R09")
     mk("cycle-through-pull-based", cycle_pull, "R09")
+    mk("cycle-of-pull-based-only", cycle_pull_only, "R09")
     mk("cycle-with-delay", cycle_delay, "R09")
     mk("cycle-with-break", cycle_break, "R09")
     mk("self-loop", self_loop, "R09")
@@ -592,7 +600,7 @@ def r03_r09_step(repo, sink):
                    ok=f"{len(paths)} lag assignments: updated component / error as in the reference semantics",
                    bad=worst or "", paths=len(paths))
     sink.note("R03.step.paths", n_paths)
-    sink.floor("R03", "scheduling-step scenarios", len(_scenarios(repo)), 20)
+    sink.floor("R03", "scheduling-step scenarios", len(_scenarios(repo)), 21)
 
 
 def r09_structure(repo, sink):
